@@ -118,6 +118,20 @@ def check(run):
         run.check(ok, 'D4', 'Boc.deserialize_cell[stored hashes]' if not ok else f'stored-hashes[mask={mask:03b}]',
                   f'cell with stored hashes and level mask {mask:03b} ({bin(mask).count("1") + 1} hash/depth pairs): {why}', wc, witness=dict(mask=mask, boc=raw2.hex()))
         run.evaluations += 1
+    # stored hashes on the largest cells (1023 data bits, four references): 2 + 4*34 + 128 + 4 bytes for one cell
+    for mask, nbits, nrefs in ((0, 1023, 4), (7, 1023, 4), (7, 792, 0), (1, 1017, 4), (3, 1023, 0)):
+        r = SCell(bocrun.bits_of(f'big{mask}{nbits}', nbits), [SCell(bocrun.bits_of(f'bl{i}', 2 + i)) for i in range(nrefs)], mask=0)
+        raw2 = encode_big_with_mask(r, mask)
+        try:
+            it, res = parse(prog, raw2)
+            got = res.items[0] if isinstance(res, ListV) and res.items else None
+            ok = got is not None and bocrun.ckey(it, got)[0] == r.bits and len(it.getattr(got, 'refs').items) == nrefs
+            why = 'data and references recovered' if ok else 'wrong data / references after the stored hashes'
+        except RaiseEx as e:
+            ok, why = False, f'rejected: {e}'
+        run.check(ok, 'D4', 'Boc.deserialize_cell[stored hashes, large cell]' if not ok else f'stored-hashes-large[mask={mask:03b},{nbits}b,{nrefs}r]',
+                  f'{nbits}-bit cell with {nrefs} references, stored hashes, level mask {mask:03b}: {why}', wc, witness=dict(mask=mask, boc=raw2.hex()[:400]))
+        run.evaluations += 1
     for nb in (0, 1, 7, 8, 9, 15, 16, 1016, 1023):
         bits = bocrun.bits_of('tag', nb)
         # worst case for tag stripping: data ending in zeros
@@ -224,3 +238,17 @@ def encode_with_mask(r, mask):
     off = 2 if len(payload) > 255 else 1
     out = bocspec.MAGIC['generic'] + bytes([1, off]) + bytes([2, 1, 0]) + len(payload).to_bytes(off, 'big') + bytes([0]) + payload
     return out, None
+
+
+def encode_big_with_mask(r, mask):
+    """one root with stored hashes for level mask `mask`, followed by its (leaf) references; minimal widths"""
+    import hashlib
+    k = bin(mask).count('1') + 1
+    n = 1 + len(r.refs)
+    root_ser = bytes([len(r.refs) + 16 + 32 * mask, r.d2()])
+    root_ser += b''.join(hashlib.sha256(b'sh' + bytes([i])).digest() for i in range(k))
+    root_ser += b''.join(bytes([0, 1]) for _ in range(k))
+    root_ser += r.data_bytes() + bytes(range(1, n))
+    payload = root_ser + b''.join(bytes([l.d1(), l.d2()]) + l.data_bytes() for l in r.refs)
+    off = 2 if len(payload) > 255 else 1
+    return bocspec.MAGIC['generic'] + bytes([1, off]) + bytes([n, 1, 0]) + len(payload).to_bytes(off, 'big') + bytes([0]) + payload
